@@ -662,7 +662,7 @@ def _c01_spellings(rep, tier):
     # unusual spellings that Wire accepts must still yield a package that compiles (and keeps the methods the template had)
     from . import c20tier
     dis, fails = c20tier.run_c20(rep, tier, set(), select=("struct/", "structlit/", "shape", "fieldsof/", "result/", "value/", "ivalue",
-                                                           "paramshadow/", "setvar/", "build/", "sets/"),
+                                                           "paramshadow/", "setvar/", "build/", "sets/", "aliashidden/"),
                                  cmds=("gen",), build=True)
     return dis, [f for f in fails if f.get("stream") == "c20-build"]
 
